@@ -64,6 +64,10 @@ CHECKS = {
    technique="symbolic execution of the MIR of pest_meta::parser::unescape and of the checked-in meta-parser's string/character rules on symbolic text; z3 decides every branch; compared with a reference unescaper and replayed natively through a cfg-guarded hook",
    text="Reduced form: only the literal-unescaping clause of the property. (A) For every valid UTF-8 string of 0..N bytes (N=4/5) and 15 escape templates with symbolic hex digits/escape letters, whenever the text is a well-formed escape sequence denoting scalar values the real unescape() returns exactly the denoted string. (B) For every text of 2..N+1 bytes and 10 templates that the checked-in meta-parser accepts as a whole `string` or `character` token, unescape() succeeds or the front-end reports a located error (never a panic).",
    note="Not decided by this check: operator structure / precedence / associativity, repetition counts, PEEK indices and the round trip through arbitrary concrete spellings (would need symbolic execution of consume_rules over Pairs, see DESIGN.md §5 C07); PrattParser itself is C13. Trusted: summaries of String/Chars/take/take_while/from_str_radix (validated natively), reference unescaper."),
+ "C04": dict(level="model_checking", design="§5 C04", engine="M",
+   technique="symbolic execution of the MIR of pest/src/iterators (Pairs, Pair, FlatPairs, Tokens, PairsBuilder, LineIndex) with the interleaving of next/next_back/len/peek chosen by symbolic selectors (z3 forks on them); every answer compared with the explicit tree",
+   text="Every ordered forest with <= 4 (quick) / 5 (thorough) nodes and height <= 3 is built through the real PairsBuilder (rule, rule_with, tag, build); the produced queue must be balanced with matching partner indices. On the Pairs, FlatPairs and Tokens views every interleaving of 4 (quick) / 6 (thorough) operations next / next_back / len+size_hint / peek is executed from MIR and each answer (which pair or token, how many left) is compared with the tree; every yielded pair is checked for as_rule, as_str, as_span, line_col (against the newline/character count), into_inner().len() and as_node_tag; Pairs::single(pair) must be a one-pair view of that pair from both ends; Pairs::as_str must be the covered text.",
+   note="Spans are fixed by the forest over one input containing a newline and a two-byte character (not symbolic). Display, Debug and JSON output are outside the encoding (core::fmt, serde). No native replay in this check; Rc/Vec/slice/partition_point summarised. Well-formedness of queues produced by parses is covered through the reference comparisons of C01/C03."),
 }
 
 NOT_APPLICABLE = {
